@@ -1,5 +1,6 @@
 import Thanos.Model.IndexHeader
 import Thanos.Lemmas.IndexHeader
+import Thanos.Lemmas.IndexLookup
 import Thanos.Generated.Facts
 /-
   C11 — Binary index-header answers equal the full index.
@@ -80,6 +81,66 @@ theorem C11_sampling_fact :
 
 theorem lookup_nil (offs : List Sampled) (tbl : List (Nat × Nat)) (l : Int) :
     lookup offs tbl l [] = .ok [] := rfl
+
+private theorem takeWhile_lt_facts (v0 : Nat) : ∀ (values : List Nat), Sorted values →
+    (∀ x ∈ values.take (values.takeWhile fun v => v < v0).length, x < v0) ∧
+    (∀ x ∈ values.drop (values.takeWhile fun v => v < v0).length, v0 ≤ x) ∧
+    (values.takeWhile fun v => v < v0).length ≤ values.length
+  | [], _ => by simp
+  | x :: l, hs => by
+    obtain ⟨ih1, ih2, ih3⟩ := takeWhile_lt_facts v0 l hs.tail
+    by_cases h : x < v0
+    · simp only [List.takeWhile_cons, h, decide_true, if_true, List.length_cons, List.take_succ_cons,
+        List.mem_cons, List.drop_succ_cons]
+      refine ⟨?_, ih2, by omega⟩
+      rintro y (rfl | hy)
+      · exact h
+      · exact ih1 y hy
+    · simp only [List.takeWhile_cons, h, decide_false, Bool.false_eq_true, if_false, List.length_nil,
+        List.take_zero, List.not_mem_nil, false_imp_iff, implies_true, List.drop_zero, List.mem_cons,
+        Nat.zero_le, and_true, true_and]
+      rintro y (rfl | hy)
+      · omega
+      · have := Sorted.head_le hs y hy; omega
+
+/-- **C11, the multi-value lookup.**  For every sampling rate `n ≥ 1`, every (strictly increasing)
+    postings offset table of a label name, of any size, and every sorted list of requested values
+    — duplicates, values that do not exist, values before the first and after the last — the
+    index-header's `postingsOffset` returns exactly the locations the full table gives, in order,
+    with `NotFoundRange` for the missing ones, and never fails. -/
+theorem C11_lookup : C11_lookup_full := by
+  intro n tbl lastVal values hn hne hinc hsorted
+  cases tbl with
+  | nil => exact absurd rfl hne
+  | cons e rest0 =>
+    obtain ⟨v0, p0⟩ := e
+    unfold lookup
+    by_cases hv : values.isEmpty = true
+    · have : values = [] := List.isEmpty_iff.mp hv
+      subst this
+      simp [specLookup]
+    · simp only [hv, Bool.false_eq_true, if_false]
+      obtain ⟨more, hsm⟩ := sample_head n hn v0 p0 rest0
+      rw [hsm]
+      simp only
+      rw [← hsm]
+      obtain ⟨h1, h2, h3⟩ := takeWhile_lt_facts v0 values hsorted
+      apply outer_ok n hn v0 p0 rest0 hinc lastVal values hsorted _ _ _ h3 (by omega) _ h2
+      -- the values before the first table value are not found
+      symm
+      rw [List.eq_replicate_iff]
+      refine ⟨by simp; omega, ?_⟩
+      intro r hr
+      simp only [List.mem_map] at hr
+      obtain ⟨x, hx, rfl⟩ := hr
+      apply specOne_lt
+      intro e he
+      have hxv := h1 x hx
+      simp only [List.mem_cons] at he
+      rcases he with rfl | he
+      · exact hxv
+      · have := StrictlyIncreasing.head_lt hinc e he
+        simp only at this; omega
 
 -- small-scope instances (tests, not the claim)
 example : lookup (sample 2 [(0, 100), (2, 200), (4, 300), (6, 400), (8, 500)])
